@@ -248,6 +248,8 @@ class APaths:
         if k == 'Lit':
             return hir.pp(e)
         if k == 'Cast':
+            if (e.get('ty') or '') in ('f32', 'f64'):
+                return 'as_%s(%s)' % (e['ty'], self.of(e['e'], depth + 1))
             return self.of(e['e'], depth + 1)
         if k == 'Binary':
             return '(%s %s %s)' % (self.of(e['l'], depth + 1), hir.BINOP.get(e['op'], e['op']), self.of(e['r'], depth + 1))
